@@ -16,6 +16,8 @@ type Gen struct {
 	// plain restricts the next WellFormedFlow to the constructs modifier
 	// mode supports: Params, Results, Concurrency and plain Tasks.
 	plain bool
+	// parCount counts the parallel programs drawn so far (every eighth gets a very large slice).
+	parCount int
 }
 
 // New returns a generator for the seed.
@@ -819,6 +821,19 @@ func (g *Gen) ParallelProgram(pid int) *ps.Program {
 	// Collections-only directives whose collections are all empty or nil: the End hooks are then
 	// the only jobs and must still run exactly once.
 	emptyOnly := g.chance(14)
+	// Every eighth parallel program has a very large first slice (3000, then 9001 elements): sizes
+	// beyond any plausible window, batch or chunk size of generated code, and not multiples of one.
+	g.parCount++
+	big := 0
+	switch g.parCount % 8 {
+	case 2:
+		big = 3000
+	case 6:
+		big = 9001
+	}
+	if big > 0 {
+		emptyOnly = false
+	}
 	if emptyOnly {
 		nt = 0
 	}
@@ -842,6 +857,9 @@ func (g *Gen) ParallelProgram(pid int) *ps.Program {
 	if nt == 0 && ns == 0 && nm == 0 {
 		ns = 1
 	}
+	if big > 0 && ns == 0 {
+		ns = 1
+	}
 	pickLen := func() int {
 		if emptyOnly {
 			return sizes[g.R.Intn(2)]
@@ -849,7 +867,7 @@ func (g *Gen) ParallelProgram(pid int) *ps.Program {
 		if g.chance(5) {
 			// beyond any plausible window or batch size of generated code (a failure or a
 			// cancellation then leaves thousands of element jobs enqueued but never run)
-			return 3000
+			return []int{3000, 9001}[g.R.Intn(2)]
 		}
 		return sizes[g.R.Intn(len(sizes))]
 	}
@@ -859,6 +877,9 @@ func (g *Gen) ParallelProgram(pid int) *ps.Program {
 		sl.Elem, sl.Param = g.assignablePair(false)
 		if ps.Types[sl.Param].Home == "ext" || g.chance(25) {
 			sl.Form = "named"
+		}
+		if s == 0 && big > 0 {
+			sl.Len = big
 		}
 		p.Slices = append(p.Slices, sl)
 	}
